@@ -36,6 +36,12 @@ def bounds(tier):
             'configs': len(tables.CONFIGS)}
 
 
+def prefork():
+    for d in (2, 3, 4, 5, 6):
+        for n in (31, 301, 1001):
+            A.korobov_generator(n, d)
+
+
 def cases(tier, seed):
     out = []
     for cfg in tables.CONFIGS:
@@ -104,7 +110,10 @@ def run_case(case):
     if not np.all(np.isfinite(M)):
         r.violation(f'{sig}:non-finite', f'{tag}: correlation has non-finite entries', case=case)
         return r
-    Rref, const, S = reference_corr(gm, df)
+    Rref, const_scores, S = reference_corr(gm, df)
+    # which columns are constant is a fact about the TRAINING DATA (a non-constant column whose fitted marginal maps
+    # every value to the same score would otherwise excuse a zero row)
+    const = [bool(df[c].nunique() == 1) for c in cols]
     r.ev(d * d)
     ridge = EPS * np.eye(d)
     e_plain = float(np.max(np.abs(M - Rref)))
